@@ -1,5 +1,7 @@
 open Datatypes
 
+val nth : nat -> 'a1 list -> 'a1 -> 'a1
+
 val nth_error : 'a1 list -> nat -> 'a1 option
 
 val removelast : 'a1 list -> 'a1 list
@@ -14,6 +16,8 @@ val flat_map : ('a1 -> 'a2 list) -> 'a1 list -> 'a2 list
 
 val fold_left : ('a1 -> 'a2 -> 'a1) -> 'a2 list -> 'a1 -> 'a1
 
+val fold_right : ('a2 -> 'a1 -> 'a1) -> 'a1 -> 'a2 list -> 'a1
+
 val existsb : ('a1 -> bool) -> 'a1 list -> bool
 
 val filter : ('a1 -> bool) -> 'a1 list -> 'a1 list
@@ -21,5 +25,9 @@ val filter : ('a1 -> bool) -> 'a1 list -> 'a1 list
 val find : ('a1 -> bool) -> 'a1 list -> 'a1 option
 
 val combine : 'a1 list -> 'a2 list -> ('a1 * 'a2) list
+
+val firstn : nat -> 'a1 list -> 'a1 list
+
+val skipn : nat -> 'a1 list -> 'a1 list
 
 val repeat : 'a1 -> nat -> 'a1 list
